@@ -40,7 +40,7 @@ import re
 import subprocess
 from pathlib import Path
 
-VERSION = "10"
+VERSION = "11"
 
 TUS = [
     "src/core/Node.cpp", "src/network/SessionManager.cpp", "src/daemon/ControlServer.cpp",
@@ -875,8 +875,10 @@ def lean_text(tree: dict) -> str:
     out.append("/-- is a receive timeout set on an accepted transport connection before its first blocking read "
                "(`set_recv_timeout` before `recv_all` in `SessionManager::accept_loop`)? -/")
     out.append(f"def transportPeerIdTimeout : Bool := {'true' if flags.get('transportPeerIdTimeout') else 'false'}\n")
-    out.append("/-- does the control server bound its blocking reads of an accepted client (SO_RCVTIMEO / poll)? -/")
+    out.append("/-- does the control accept loop set SO_RCVTIMEO on an accepted client socket before handling the client? -/")
     out.append(f"def controlReadTimeout : Bool := {'true' if flags.get('controlReadTimeout') else 'false'}\n")
+    out.append("/-- … and SO_SNDTIMEO (a client that never reads its response)? -/")
+    out.append(f"def controlWriteTimeout : Bool := {'true' if flags.get('controlWriteTimeout') else 'false'}\n")
     out.append("end EphVerif.Gen.C35\n")
     return "\n".join(out)
 
@@ -884,7 +886,7 @@ def lean_text(tree: dict) -> str:
 def read_flags(repo: Path) -> tuple[dict, list[str]]:
     """(T) by source scan: are the blocking reads of the two accept loops bounded?"""
     gaps: list[str] = []
-    flags = {"transportPeerIdTimeout": False, "controlReadTimeout": False}
+    flags = {"transportPeerIdTimeout": False, "controlReadTimeout": False, "controlWriteTimeout": False}
 
     def strip(text: str) -> str:
         text = re.sub(r"/\*.*?\*/", " ", text, flags=re.S)
@@ -902,7 +904,21 @@ def read_flags(repo: Path) -> tuple[dict, list[str]]:
         gaps.append(f"SessionManager.cpp: {ex}")
     try:
         cs = strip((repo / "src/daemon/ControlServer.cpp").read_text(errors="replace"))
-        flags["controlReadTimeout"] = bool(re.search(r"SO_RCVTIMEO|\bpoll\s*\(|\bselect\s*\(|\bepoll_wait\s*\(", cs))
+        m = re.search(r"void\s+accept_loop\s*\(\s*\)\s*\{(.*?)\n    \}", cs, flags=re.S)
+        if not m:
+            gaps.append("ControlServer::Impl::accept_loop body not found")
+        else:
+            body = m.group(1)
+            cut = body.find("handle_client")
+            before = body if cut < 0 else body[:cut]
+            # what is set on the accepted socket before the client is handled: directly, or through a helper of this file
+            text = before
+            for name in set(re.findall(r"\b([A-Za-z_]\w*)\s*\(", before)):
+                h = re.search(r"\b" + re.escape(name) + r"\s*\([^;{}]*\)\s*(?:const\s*)?\{(.*?)\n\}", cs, flags=re.S)
+                if h and "setsockopt" in h.group(1):
+                    text += h.group(1)
+            flags["controlReadTimeout"] = "SO_RCVTIMEO" in text
+            flags["controlWriteTimeout"] = "SO_SNDTIMEO" in text
     except OSError as ex:
         gaps.append(f"ControlServer.cpp: {ex}")
     return flags, gaps
